@@ -106,7 +106,7 @@ Definition ex_expand (t : text) : option (list text) := Some [t].
 Definition ex_join (l : list text) : text := concat l.
 Definition ex_rounds : list round :=
   [ mkRound 1000000 true [] [];
-    mkRound 1100000 false [mkCin false true false (Some (bslit "on n1" ++ [LF])) None true] [];
+    mkRound 1100000 false [mkCin false true false (Some (bslit "on n1" ++ [LF])) None] [];
     mkRound 1200000 false [] [];
     mkRound 7000000 false [] [] ].
 Example C04_run_example :
